@@ -5,6 +5,7 @@
 package simnet
 
 import (
+	"context"
 	"bytes"
 	"crypto/sha256"
 	"encoding/hex"
@@ -272,3 +273,30 @@ func (n *Net) queueReply(m *Message, r *reply) {
 
 func (m *Message) done() bool { return m.answered }
 func (m *Message) markDone()  { m.answered = true }
+
+// Route is what a simulated client request carries in its context when the gateway under test
+// uses its own default queryers (http.DefaultClient): the sub-requests inherit the context, and
+// CtxTransport - installed as http.DefaultClient.Transport for the time of a run - sends them into
+// the right simulated network under the right tag.
+type Route struct {
+	Net *Net
+	Tag string
+}
+
+type routeKey struct{}
+
+// WithRoute attaches a route to a request context.
+func WithRoute(ctx context.Context, r *Route) context.Context {
+	return context.WithValue(ctx, routeKey{}, r)
+}
+
+// CtxTransport is an http.RoundTripper that delivers through the route found in the request context.
+type CtxTransport struct{}
+
+func (CtxTransport) RoundTrip(req *http.Request) (*http.Response, error) {
+	r, _ := req.Context().Value(routeKey{}).(*Route)
+	if r == nil {
+		return nil, errors.New("simnet: request without a route in its context")
+	}
+	return (&Transport{Net: r.Net, Tag: r.Tag}).RoundTrip(req)
+}
